@@ -439,6 +439,93 @@ pub fn redim_programs() -> Vec<(Prog, String)> {
 pub const BYPASSES: [&str; 13] = ["GOTO over it", "IF branch not taken", "CASE not taken", "WHILE body never entered", "FOR body never entered", "executed",
     "ELSEIF block not taken (the IF branch runs)", "ELSEIF block not taken (the ELSE branch runs)", "ELSE block not taken", "CASE ELSE not taken", "DO WHILE body never entered", "IF block inside a WHILE body never entered", "second CASE not taken (the first runs)"];
 
+/// The statements of one bypass program: declarations that control flow goes past in way `bi`, then the uses.
+fn bypass_body(b: &mut B, elem: Elem, dims: &[(i32, i32)], dynamic: u8, bi: usize) -> Vec<Stmt> {
+        let shape = Shape { dims: dims.to_vec(), explicit: true };
+        let mut d = if dims.is_empty() {
+            b.s(K::Dim { shared: false, redim: false, vars: vec![DimVar { name: "A".into(), ty: Some(DeclTy::Rec("Outer".into())), dims: vec![] }] })
+        } else {
+            dim_stmt(b, "A", &shape, elem)
+        };
+        if let K::Dim { redim, vars, .. } = &mut d.k {
+            if dynamic == 1 {
+                vars[0].dims[0].1 = var("N%");
+            }
+            if dynamic == 2 {
+                *redim = true;
+            }
+        }
+        // a typed scalar declared next to it: its type applies wherever the DIM is
+        let d2 = b.s(K::Dim { shared: false, redim: false, vars: vec![DimVar { name: "Q".into(), ty: Some(DeclTy::Scalar(Ty::Int)), dims: vec![] }, DimVar { name: "F".into(), ty: Some(DeclTy::FixStr(4)), dims: vec![] }] });
+        let decl = vec![d, d2];
+        let mut body = vec![b.assign(var("N%"), num(3)), b.assign(var("Z%"), num(0))];
+        match bi {
+            0 => {
+                body.push(b.s(K::Goto("Past".into())));
+                body.extend(decl);
+                body.push(b.s(K::Label("Past".into())));
+            }
+            1 => body.push(b.s(K::If { arms: vec![(var("Z%"), decl)], els: None, single_line: false })),
+            2 => {
+                let zero = b.print(vec![st("zero")]);
+                body.push(b.s(K::Select { subject: var("Z%"), cases: vec![(vec![CaseExpr::Simple(num(1))], decl), (vec![CaseExpr::Simple(num(0))], vec![zero])], els: None }));
+            }
+            3 => body.push(b.s(K::While(var("Z%"), decl))),
+            4 => body.push(b.s(K::For { var: var("I%"), from: num(1), to: var("Z%"), step: None, body: decl, next_var: false })),
+            6 | 7 => {
+                // Z% = 0: with `Z% = 0` as the first condition the IF branch runs, with `Z% = 5` the ELSE branch
+                let first = b.print(vec![st("first")]);
+                let last = b.print(vec![st("last")]);
+                let c1 = Expr::Bin(BinOp::Eq, Box::new(var("Z%")), Box::new(num(if bi == 6 { 0 } else { 5 })));
+                let c2 = Expr::Bin(BinOp::Eq, Box::new(var("Z%")), Box::new(num(2)));
+                body.push(b.s(K::If { arms: vec![(c1, vec![first]), (c2, decl)], els: Some(vec![last]), single_line: false }));
+            }
+            8 => {
+                let first = b.print(vec![st("first")]);
+                let c1 = Expr::Bin(BinOp::Eq, Box::new(var("Z%")), Box::new(num(0)));
+                body.push(b.s(K::If { arms: vec![(c1, vec![first])], els: Some(decl), single_line: false }));
+            }
+            9 => {
+                let zero = b.print(vec![st("zero")]);
+                body.push(b.s(K::Select { subject: var("Z%"), cases: vec![(vec![CaseExpr::Simple(num(0))], vec![zero])], els: Some(decl) }));
+            }
+            12 => {
+                let zero = b.print(vec![st("zero")]);
+                body.push(b.s(K::Select { subject: var("Z%"), cases: vec![(vec![CaseExpr::Simple(num(0))], vec![zero]), (vec![CaseExpr::Simple(num(1))], decl)], els: None }));
+            }
+            10 => body.push(b.s(K::Do(DoKind::WhileTop, var("Z%"), decl))),
+            11 => {
+                let inner = b.s(K::If { arms: vec![(num(1), decl)], els: None, single_line: false });
+                body.push(b.s(K::While(var("Z%"), vec![inner])));
+            }
+            _ => body.extend(decl),
+        }
+        // read before anything is stored: a fixed-length string holds its n blanks from the start
+        body.push(b.print(vec![var("Q"), st("["), var("F"), st("]"), builtin("LEN", vec![var("F")])]));
+        body.push(b.assign(var("Q"), Expr::Num("3.75".into())));
+        body.push(b.assign(var("F"), st("abcdefg")));
+        body.push(b.print(vec![var("Q"), st("["), var("F"), st("]")]));
+        if dims.is_empty() {
+            body.push(b.assign(Expr::Field(Box::new(var("A")), "N".into()), num(7)));
+            body.push(b.assign(Expr::Field(Box::new(var("A")), "S".into()), st("xyz")));
+            body.push(b.assign(Expr::Field(Box::new(Expr::Field(Box::new(var("A")), "I".into())), "P".into()), num(70000)));
+            body.push(b.print(vec![Expr::Field(Box::new(var("A")), "N".into()), st("["), Expr::Field(Box::new(var("A")), "S".into()), st("]"), Expr::Field(Box::new(Expr::Field(Box::new(var("A")), "I".into())), "P".into())]));
+        } else {
+            let all = cells(&shape);
+            for (k, cell) in all.iter().enumerate() {
+                for (loc, val) in cell_writes("A", elem, cell, k as i64 + 1) {
+                    body.push(b.assign(loc, val));
+                }
+            }
+            body.extend(dump(b, "A", elem, &shape, "a"));
+            let an = arr_name("A", elem);
+            for d in 1..=shape.dims.len() {
+                body.push(b.print(vec![builtin("LBOUND", vec![var(&an), num(d as i64)]), builtin("UBOUND", vec![var(&an), num(d as i64)])]));
+            }
+        }
+        body
+}
+
 /// A declaration that control flow goes past without executing it: records and arrays with literal bounds
 /// exist all the same (they are allocated when the module or subprogram starts) and behave as declared;
 /// arrays whose bounds are computed, and REDIMmed ones, do not exist yet: Subscript out of range.
@@ -457,99 +544,37 @@ pub fn bypassed_dim_programs() -> Vec<(Prog, String)> {
     ];
     for (dl, elem, dims, dynamic) in &decls {
         for (bi, bl) in BYPASSES.iter().enumerate() {
-            for in_sub in [false, true] {
+            // placements: the main module; a SUB called twice; and each of the two next to a SUB that declares the same
+            // names where control flow cannot go past the declarations (nothing of the first body may leak into it)
+            for place in 0..4 {
+                if place >= 2 && bi == 5 {
+                    continue;
+                }
+                let in_sub = place == 1 || place == 3;
                 let mut b = B::new();
-                let shape = Shape { dims: dims.clone(), explicit: true };
-                let mut d = if dims.is_empty() {
-                    b.s(K::Dim { shared: false, redim: false, vars: vec![DimVar { name: "A".into(), ty: Some(DeclTy::Rec("Outer".into())), dims: vec![] }] })
-                } else {
-                    dim_stmt(&mut b, "A", &shape, *elem)
-                };
-                if let K::Dim { redim, vars, .. } = &mut d.k {
-                    if *dynamic == 1 {
-                        vars[0].dims[0].1 = var("N%");
-                    }
-                    if *dynamic == 2 {
-                        *redim = true;
-                    }
-                }
-                // a typed scalar declared next to it: its type applies wherever the DIM is
-                let d2 = b.s(K::Dim { shared: false, redim: false, vars: vec![DimVar { name: "Q".into(), ty: Some(DeclTy::Scalar(Ty::Int)), dims: vec![] }, DimVar { name: "F".into(), ty: Some(DeclTy::FixStr(4)), dims: vec![] }] });
-                let decl = vec![d, d2];
-                let mut body = vec![b.assign(var("N%"), num(3)), b.assign(var("Z%"), num(0))];
-                match bi {
-                    0 => {
-                        body.push(b.s(K::Goto("Past".into())));
-                        body.extend(decl);
-                        body.push(b.s(K::Label("Past".into())));
-                    }
-                    1 => body.push(b.s(K::If { arms: vec![(var("Z%"), decl)], els: None, single_line: false })),
-                    2 => {
-                        let zero = b.print(vec![st("zero")]);
-                        body.push(b.s(K::Select { subject: var("Z%"), cases: vec![(vec![CaseExpr::Simple(num(1))], decl), (vec![CaseExpr::Simple(num(0))], vec![zero])], els: None }));
-                    }
-                    3 => body.push(b.s(K::While(var("Z%"), decl))),
-                    4 => body.push(b.s(K::For { var: var("I%"), from: num(1), to: var("Z%"), step: None, body: decl, next_var: false })),
-                    6 | 7 => {
-                        // Z% = 0: with `Z% = 0` as the first condition the IF branch runs, with `Z% = 5` the ELSE branch
-                        let first = b.print(vec![st("first")]);
-                        let last = b.print(vec![st("last")]);
-                        let c1 = Expr::Bin(BinOp::Eq, Box::new(var("Z%")), Box::new(num(if bi == 6 { 0 } else { 5 })));
-                        let c2 = Expr::Bin(BinOp::Eq, Box::new(var("Z%")), Box::new(num(2)));
-                        body.push(b.s(K::If { arms: vec![(c1, vec![first]), (c2, decl)], els: Some(vec![last]), single_line: false }));
-                    }
-                    8 => {
-                        let first = b.print(vec![st("first")]);
-                        let c1 = Expr::Bin(BinOp::Eq, Box::new(var("Z%")), Box::new(num(0)));
-                        body.push(b.s(K::If { arms: vec![(c1, vec![first])], els: Some(decl), single_line: false }));
-                    }
-                    9 => {
-                        let zero = b.print(vec![st("zero")]);
-                        body.push(b.s(K::Select { subject: var("Z%"), cases: vec![(vec![CaseExpr::Simple(num(0))], vec![zero])], els: Some(decl) }));
-                    }
-                    12 => {
-                        let zero = b.print(vec![st("zero")]);
-                        body.push(b.s(K::Select { subject: var("Z%"), cases: vec![(vec![CaseExpr::Simple(num(0))], vec![zero]), (vec![CaseExpr::Simple(num(1))], decl)], els: None }));
-                    }
-                    10 => body.push(b.s(K::Do(DoKind::WhileTop, var("Z%"), decl))),
-                    11 => {
-                        let inner = b.s(K::If { arms: vec![(num(1), decl)], els: None, single_line: false });
-                        body.push(b.s(K::While(var("Z%"), vec![inner])));
-                    }
-                    _ => body.extend(decl),
-                }
-                // read before anything is stored: a fixed-length string holds its n blanks from the start
-                body.push(b.print(vec![var("Q"), st("["), var("F"), st("]"), builtin("LEN", vec![var("F")])]));
-                body.push(b.assign(var("Q"), Expr::Num("3.75".into())));
-                body.push(b.assign(var("F"), st("abcdefg")));
-                body.push(b.print(vec![var("Q"), st("["), var("F"), st("]")]));
-                if dims.is_empty() {
-                    body.push(b.assign(Expr::Field(Box::new(var("A")), "N".into()), num(7)));
-                    body.push(b.assign(Expr::Field(Box::new(var("A")), "S".into()), st("xyz")));
-                    body.push(b.assign(Expr::Field(Box::new(Expr::Field(Box::new(var("A")), "I".into())), "P".into()), num(70000)));
-                    body.push(b.print(vec![Expr::Field(Box::new(var("A")), "N".into()), st("["), Expr::Field(Box::new(var("A")), "S".into()), st("]"), Expr::Field(Box::new(Expr::Field(Box::new(var("A")), "I".into())), "P".into())]));
-                } else {
-                    let all = cells(&shape);
-                    for (k, cell) in all.iter().enumerate() {
-                        for (loc, val) in cell_writes("A", *elem, cell, k as i64 + 1) {
-                            body.push(b.assign(loc, val));
-                        }
-                    }
-                    body.extend(dump(&mut b, "A", *elem, &shape, "a"));
-                    let an = arr_name("A", *elem);
-                    for d in 1..=shape.dims.len() {
-                        body.push(b.print(vec![builtin("LBOUND", vec![var(&an), num(d as i64)]), builtin("UBOUND", vec![var(&an), num(d as i64)])]));
-                    }
-                }
-                let label = format!("DIM bypassed: {} / {} / {}", dl, bl, if in_sub { "in a SUB" } else { "main module" });
-                let prog = if in_sub {
+                let body = bypass_body(&mut b, *elem, dims, *dynamic, bi);
+                let label = format!("DIM bypassed: {} / {} / {}", dl, bl, ["main module", "in a SUB", "main module, and a SUB declaring the same names plainly", "in a SUB, and another SUB declaring the same names plainly"][place]);
+                let mut subs = vec![];
+                let mut main = vec![];
+                if in_sub {
                     let id = b.id();
-                    let call1 = b.s(K::Call("Work".into(), vec![]));
-                    let call2 = b.s(K::Call("Work".into(), vec![]));
-                    Prog { types: rec_types(), main: vec![call1, call2], subs: vec![SubDef { id, name: "Work".into(), is_function: false, params: vec![], body, is_static: false }], declare: true, ..Default::default() }
+                    main.push(b.s(K::Call("Work".into(), vec![])));
+                    main.push(b.s(K::Call("Work".into(), vec![])));
+                    subs.push(SubDef { id, name: "Work".into(), is_function: false, params: vec![], body, is_static: false });
                 } else {
-                    Prog { types: rec_types(), main: body, ..Default::default() }
-                };
+                    main = body;
+                }
+                if place >= 2 {
+                    let plain = bypass_body(&mut b, *elem, dims, *dynamic, 5);
+                    let id = b.id();
+                    main.push(b.s(K::Call("Plain".into(), vec![])));
+                    if in_sub {
+                        main.push(b.s(K::Call("Work".into(), vec![])));
+                    }
+                    subs.push(SubDef { id, name: "Plain".into(), is_function: false, params: vec![], body: plain, is_static: false });
+                }
+                let declare = !subs.is_empty();
+                let prog = Prog { types: rec_types(), main, subs, declare, ..Default::default() };
                 out.push((prog, label));
             }
         }
